@@ -268,6 +268,13 @@ impl From<DynamicTable> for Decoder {
     }
 }
 
+#[cfg(all(feature = "verif-hooks", not(test)))]
+impl From<DynamicTable> for Decoder {
+    fn from(table: DynamicTable) -> Self {
+        Self { table }
+    }
+}
+
 #[derive(PartialEq)]
 enum Instruction {
     Insert(HeaderField),
